@@ -82,6 +82,30 @@ PROPS = {
         "trusted_base": ["zipContains hand-modelled (Prims.lean); zip children regenerated; tie: walk ops on archive/zip output + oracle from the entry list read back with archive/zip"],
         "partial": ["hop_reaches / ooxml_forward for markers in entries 2..6: not proved; covered by the correspondence (model = implementation on writer-produced archives) and the archive/zip oracle only"],
     },
+    "C08": {
+        "slices": ["C08"],
+        "relevant_diff": dets_only("JSON", "GeoJSON", "HAR", "GLTF", "Text"),
+        "assumptions": COMMON_ASSUME,
+        "trusted_base": ["internal/json/parser.go and jsonHelper hand-modelled (Model/Json.lean); tie: jparse/jdoc/jany ops"],
+    },
+    "C09": {
+        "slices": ["C09"],
+        "relevant_diff": dets_only("JSON", "GeoJSON", "HAR", "GLTF", "Text"),
+        "assumptions": COMMON_ASSUME,
+        "trusted_base": ["internal/json/parser.go and jsonHelper hand-modelled (Model/Json.lean); tie: jparse/jany ops, exhaustive over a 16-symbol alphabet"],
+    },
+    "C10": {
+        "slices": ["C10"],
+        "relevant_diff": dets_only("JSON", "GeoJSON", "HAR", "GLTF"),
+        "assumptions": COMMON_ASSUME + ["keys and deciding values spelled without escape sequences"],
+        "trusted_base": ["queries regenerated from parser.go; scanner hand-modelled; tie: jparse with every query + jsub ops against an AST-level oracle"],
+    },
+    "C11": {
+        "slices": ["charset", "C11"],
+        "relevant_diff": lambda part, op: part.startswith("DIFF cs-plain") or part.startswith("DIFF leaf"),
+        "assumptions": COMMON_ASSUME + ["unicode/utf8.Valid / RuneStart hand-modelled (Charset.utf8Valid)"],
+        "trusted_base": ["FromPlain/latin/ascii hand-modelled; boms and textChars regenerated; tie: cs plain ops exhaustive over a byte-class alphabet"],
+    },
     "C07": {
         "slices": ["tree", "C07", "corpus"],
         "relevant_diff": dets_only("Text"),
